@@ -404,6 +404,92 @@ theorem holds_p7540_of_reach (mc mi : Nat) (th : Bool) (e : Env) (ops : List Op)
   rw [h3] at r1
   exact ⟨L', r1, r2, r3⟩
 
+/-! ### Preservation of reachability: proved for Push, Pop, OpenStream; stated for CloseStream, AdjustStream -/
+
+/-- States of the RFC 7540 scheduler reachable by contract-respecting calls (ids never reused), together
+with the set of open streams and of ids ever opened. -/
+inductive Reach7 (mc mi : Nat) (th : Bool) : Env → P7540 → (Nat → Bool) → (Nat → Bool) → Prop
+  | init (e : Env) : Reach7 mc mi th e (P7540.init mc mi th) (fun _ => false) (fun _ => false)
+  | step {e s opn ever} (op : Op) : Reach7 mc mi th e s opn ever → OpOK opn op → freshOK ever op →
+      Reach7 mc mi th (s.step e op).1 (s.step e op).2.1 (opnOp opn op) (everOp ever op)
+  | env {e s opn ever} (e' : Env) : Reach7 mc mi th e s opn ever → Reach7 mc mi th e' s opn ever
+
+/-- STATED, not proved: on reachable states `CloseStream` (which may evict the oldest closed node with
+`removeNode`, moving its children to its parent) keeps every mapped node attached to the root. -/
+def CloseKeepsReach : Prop :=
+  ∀ (mc mi : Nat) (th : Bool) (e : Env) (s : P7540) (opn ever : Nat → Bool) (id : Nat),
+    Reach7 mc mi th e s opn ever → ReachInv s → opn id = true → ReachInv (s.closeStream id).1
+
+/-- STATED, not proved: on reachable states `AdjustStream` (idle-node creation with eviction, the "new parent
+is a descendant" move, exclusive re-parenting, the final `setParent`) keeps every mapped node attached. -/
+def AdjustKeepsReach : Prop :=
+  ∀ (mc mi : Nat) (th : Bool) (e : Env) (s : P7540) (opn ever : Nat → Bool) (id dep w : Nat) (excl : Bool),
+    Reach7 mc mi th e s opn ever → ReachInv s → id ≠ 0 → ReachInv (s.adjustStream id dep excl w).1
+
+theorem reach7_inv {mc mi : Nat} {th : Bool} {e : Env} {s : P7540} {opn ever : Nat → Bool}
+    (h : Reach7 mc mi th e s opn ever) : CoreInv s opn ever ∧ ListInv s ∧ AbsWF (absP7 s) opn := by
+  induction h with
+  | init e =>
+    obtain ⟨h1, h2, h3⟩ := p7_init_inv mc mi th
+    exact ⟨h1, h2, by rw [h3]; exact absWF_empty⟩
+  | @step e s opn ever op _ hok hf ih =>
+    obtain ⟨hc, hli, hwf⟩ := ih
+    obtain ⟨hstep, hc', hli'⟩ := p7_step e hc hli hwf hok hf
+    have hl : LedgerOK (absP7 s) ⟨fun id => flatToks ((absP7 s).q id), fun _ => [], fun _ => []⟩ := by
+      intro id; simp
+    obtain ⟨hwf', _, _, _⟩ := step_preserves hwf hl hok hstep
+    exact ⟨hc', hli', hwf'⟩
+  | env e' _ ih => exact ih
+
+/-- One call keeps all mapped nodes reachable (`p7_reachInv_step`): proved for Push, Pop, OpenStream and the
+environment changes; CloseStream and AdjustStream by the two stated hypotheses. -/
+theorem p7_reachInv_step (hC : CloseKeepsReach) (hA : AdjustKeepsReach) {mc mi : Nat} {th : Bool} {e : Env}
+    {s : P7540} {opn ever : Nat → Bool} (hr7 : Reach7 mc mi th e s opn ever) (hr : ReachInv s) (op : Op)
+    (hok : OpOK opn op) : ReachInv (s.step e op).2.1 := by
+  obtain ⟨hc, _, _⟩ := reach7_inv hr7
+  cases op with
+  | win id d =>
+    have : (s.step e (.win id d)).2.1 = s := by simp only [P7540.step]; split <;> rfl
+    rw [this]; exact hr
+  | maxframe n => exact hr
+  | openS id p c => exact reachInv_open (pusher := p) hc hr
+  | closeS id => exact hC mc mi th e s opn ever id hr7 hr hok
+  | adjust id d x w c => exact hA mc mi th e s opn ever id d w x hr7 hr hok.1
+  | push f => exact reachInv_push f hr
+  | pop hint => exact reachInv_pop e hr
+
+theorem reachInv_init (mc mi : Nat) (th : Bool) : ReachInv (P7540.init mc mi th) := by
+  intro id n h
+  simp only [P7540.lookup, P7540.init, List.lookup] at h
+  split at h
+  · cases h; exact ReachD.self
+  · cases h
+
+/-- `p7_reachInv_run`: along every contract-respecting history all mapped nodes stay reachable. -/
+theorem p7_reachInv_run (hC : CloseKeepsReach) (hA : AdjustKeepsReach) {mc mi : Nat} {th : Bool} (ops : List Op) :
+    ∀ (e : Env) (s : P7540) (opn ever : Nat → Bool), Reach7 mc mi th e s opn ever → ReachInv s →
+      Contract opn ops → Fresh ever ops → ReachAlong e s ops := by
+  induction ops with
+  | nil => intro e s opn ever _ _ _ _; trivial
+  | cons op ops ih =>
+    intro e s opn ever hr7 hr hc hf
+    exact ⟨hr, ih _ _ _ _ (Reach7.step op hr7 hc.1 hf.1) (p7_reachInv_step hC hA hr7 hr op hc.1) hc.2 hf.2⟩
+
+/-- `p7_pop_none_complete`: in a state where every mapped node is reachable, a `Pop` that returns nothing
+means that no stream has a sendable frame (the walk tried every node; sorting only permutes siblings). -/
+theorem p7_pop_none_complete {s s' : P7540} {opn ever : Nat → Bool} {e e' : Env} (hc : CoreInv s opn ever)
+    (hr : ReachInv s) (hp : s.pop e = (e', s', .none)) :
+    ∀ id f rest, (absP7 s).q id = f :: rest → ∃ e1, f.consume e maxInt32 = (e1, .none) :=
+  p7_pop_none_sendable hc hr hp
+
+/-- **Full C12 for the RFC 7540 scheduler modulo the two stated preservation lemmas.** -/
+theorem holds_p7540_of_preservation (hC : CloseKeepsReach) (hA : AdjustKeepsReach) (mc mi : Nat) (th : Bool)
+    (e : Env) (ops : List Op) (hc : Contract (fun _ => false) ops) (hf : Fresh (fun _ => false) ops) :
+    Holds True e ops ((P7540.init mc mi th).run e ops).2.2 ((P7540.init mc mi th).run e ops).1
+      (absP7 ((P7540.init mc mi th).run e ops).2.1) :=
+  holds_p7540_of_reach mc mi th e ops hc hf
+    (p7_reachInv_run hC hA ops e _ _ _ (Reach7.init e) (reachInv_init mc mi th) hc hf)
+
 /-- All four schedulers. -/
 inductive Kind4 where
   | base (k : Kind)
@@ -434,6 +520,14 @@ theorem holds_partial (k : Kind4) (e : Env) (ops : List Op)
   cases k with
   | base k => exact ⟨_, holds_rr_p9218_rand k e ops hc⟩
   | p7540 mc mi th => exact ⟨_, holds_p7540_partial mc mi th e ops hc hf⟩
+
+/-- **`Statement` for all four schedulers, without a `False` case**, from the two stated preservation
+lemmas (the only unproved ingredients; the three other schedulers need neither them nor `Fresh`). -/
+theorem holds_of_preservation (hC : CloseKeepsReach) (hA : AdjustKeepsReach) : Statement := by
+  intro k e ops hc hf
+  cases k with
+  | base k => exact ⟨_, holds_rr_p9218_rand k e ops hc⟩
+  | p7540 mc mi th => exact ⟨_, holds_p7540_of_preservation hC hA mc mi th e ops hc hf⟩
 
 def witnessEnv : Env := { maxFrame := 16384, connWin := 65535, win := fun _ => 65535 }
 
